@@ -446,6 +446,11 @@ pub fn exec(op: &Op) -> R {
             unsafe { &*np }.shallow.set(true);
             Ok(())
         }),
+        Op::CloneBomb(o) => world::with(|w| {
+            let np = w.node_ptr(*o).ok_or("clonebomb: object not accessible")?;
+            unsafe { &*np }.clone_bomb.set(true);
+            Ok(())
+        }),
         Op::RawRelease(o) => world::with(|w| {
             let np = w.node_ptr(*o).ok_or("rawrelease: object not accessible")?;
             unsafe { &*np }.raw_release.set(true);
@@ -656,6 +661,28 @@ fn exec_make_mut(slot: usize) -> R {
     }));
     let (rid, rcan) = match called {
         Ok(x) => x,
+        Err(payload) if payload.is::<crate::node::CloneBombPanic>() => {
+            // The value's own `Clone` failed before copying anything. Nothing may have changed: the
+            // caller's handle is the same handle to the same object (the sweep after this
+            // operation compares every count and table, and the allocator the scratch box).
+            alloc::restore(false);
+            let addr = Rc::as_ptr(&rc) as usize;
+            return world::with(|w| {
+                w.makemut_pending = None;
+                if w.makemut_cloned.take().is_some() {
+                    w.harness_error("clone bomb went off after the clone was registered".into());
+                }
+                w.stats.clone_bombs += 1;
+                if addr != w.objs[t as usize].addr {
+                    w.viol("live", true, format!("Clone panicked inside make_mut on #{}: the caller's handle no longer refers to it ({:#x} vs {:#x})", t, addr, w.objs[t as usize].addr));
+                    std::mem::forget(rc);
+                    return Ok(());
+                }
+                w.ev(Ev::Note(format!("Clone panicked inside make_mut on #{}", t)));
+                w.handles[slot] = Some(rc);
+                Ok(())
+            });
+        }
         Err(payload) => {
             // A destructor panicked while make_mut released the old handle. The assignment that
             // installs the private copy completes on the unwinding path, so the caller's handle
@@ -919,7 +946,7 @@ fn op_touches(w: &World, op: &Op) -> Option<Vec<ObjId>> {
         Op::DropWeak(_) => {}
         Op::Script(o, _, _) => v.push(*o),
         Op::CloneDead(_) | Op::DropDead(_) | Op::DowngradeOwn(_) | Op::EscapeOwn(_) | Op::CloneLate(_) => {}
-        Op::Shallow(o) | Op::RawRelease(o) => v.push(*o),
+        Op::Shallow(o) | Op::RawRelease(o) | Op::CloneBomb(o) => v.push(*o),
     }
     Some(v)
 }
